@@ -1,6 +1,10 @@
 // ---------------- assumed environment: errors and opaque strings (stand-ins; trusted) ----------------
 #[verifier::external_body]
 pub struct Error { _p: u8 }
+impl core::fmt::Debug for Error {
+    #[verifier::external_body]
+    fn fmt(&self, f: &mut core::fmt::Formatter<'_>) -> core::fmt::Result { unimplemented!() }
+}
 pub type Result<T> = core::result::Result<T, Error>;
 impl Error {
     #[verifier::external_body]
